@@ -187,6 +187,33 @@ Fixpoint dtick_all (cols now : Z) (anims : list (style * dstate)) : list (style 
       ((sty, st') :: rest', ev ++ ev')
   end.
 
+(* setup(): the start helpers of one display's lcd.animate calls, in call order
+   (call = style, row, text, speed_ms, loop) *)
+Definition dcall := (style * Z * list Z * Z * bool)%type.
+Fixpoint dstart_all (cols : Z) (calls : list dcall) : list (style * dstate) * list dev :=
+  match calls with
+  | [] => ([], [])
+  | (sty, row, text, speed, lp) :: rest =>
+      let '(st, ev) := dstart sty cols row text speed lp in
+      let '(sts, evs) := dstart_all cols rest in
+      ((sty, st) :: sts, ev ++ evs)
+  end.
+
+(* a display over a whole run: loop() pass k ticks all its animations at millis() = nows[k];
+   result: the final states and the cell writes of every pass *)
+Fixpoint drun_all (cols : Z) (anims : list (style * dstate)) (nows : list Z)
+  : list (style * dstate) * list (list dev) :=
+  match nows with
+  | [] => (anims, [])
+  | now :: rest =>
+      let '(anims', ev) := dtick_all cols now anims in
+      let '(animsn, evs) := drun_all cols anims' rest in
+      (animsn, ev :: evs)
+  end.
+
+(* the rows the animations of a display live in *)
+Definition rows_of (anims : list (style * dstate)) : list Z := map (fun a => d_row (snd a)) anims.
+
 (* ---- tick injection (parser.py 4366-4371 + emitter.py 1528-1563).
    A call site of lcd.animate is (lcd name, style).  [emit] walks setup_body first and gives each
    site the state variable __redu_lcd_anim_<name>_<k>, k counting the sites of that name seen so
